@@ -99,6 +99,42 @@ theorem forward_congr (c : Cfg) (ss ss' : Streams) (p : Pkt) (a : UInt16) (b : U
   · simp [forward, rewrite, hc]
   · rw [forward_get_same, forward_get_same, hc]
 
+/-! ### MID stamping -/
+section stamp
+open RtcModel.Demux (Bytes Ext getExtension getExt1)
+
+/-- the one-byte-header element header `id << 4 | (len - 1)` -/
+def midHdr (id : UInt8) (mid : Bytes) : UInt8 := UInt8.ofNat (id.toNat * 16 + (mid.length - 1))
+/-- the extension block `set_extension(id, mid)` builds on a header without extension -/
+def stamped (id : UInt8) (mid : Bytes) : Ext := { profile := 0xBEDE, data := padTo4 (midHdr id mid :: mid) }
+
+theorem setExtension_none (id : UInt8) (mid : Bytes) (h1 : 1 ≤ id.toNat) (h2 : id.toNat ≤ 14)
+    (h3 : 1 ≤ mid.length) (h4 : mid.length ≤ 16) :
+    setExtension none id mid = some (stamped id mid) := by
+  have hid0 : id ≠ 0 := by intro h; simp [h] at h1
+  have hne : mid ≠ [] := by intro h; simp [h] at h3
+  have hlen : ¬ (mid.length > 16 ∨ mid.isEmpty = true) := by
+    simp [List.isEmpty_iff, hne]; omega
+  have hidr : ¬ (id = 0 ∨ id.toNat ≥ 15) := by simp [hid0]; omega
+  simp only [setExtension, hidr, hlen, if_false, Option.getD_none]
+  simp [setExtLoop, stamped, midHdr]
+
+theorem get_stamped (id : UInt8) (mid : Bytes) (h1 : 1 ≤ id.toNat) (h2 : id.toNat ≤ 14)
+    (h3 : 1 ≤ mid.length) (h4 : mid.length ≤ 16) (ssrc pt : Nat) :
+    getExtension { ssrc, pt, ext := some (stamped id mid) } id.toNat = some mid := by
+  have hh : (midHdr id mid).toNat = id.toNat * 16 + (mid.length - 1) := by
+    simp [midHdr, UInt8.toNat_ofNat']; omega
+  have hnz : midHdr id mid ≠ 0 := by
+    intro h; rw [h] at hh; simp at hh; omega
+  have e1 : (midHdr id mid).toNat / 16 = id.toNat := by rw [hh]; omega
+  have e2 : (midHdr id mid).toNat % 16 + 1 = mid.length := by rw [hh]; omega
+  simp only [getExtension, stamped, if_true, padTo4]
+  simp only [List.cons_append, List.length_cons, getExt1, hnz, if_false, e1, e2]
+  have : id.toNat ≠ 15 := by omega
+  simp [this]
+
+end stamp
+
 theorem consecFrom_append (x : UInt16) (xs ys : List UInt16) :
     consecFrom x (xs ++ ys) ↔ consecFrom x xs ∧ consecFrom (xs.foldl (fun acc _ => acc + 1) x) ys := by
   induction xs generalizing x with
